@@ -22,9 +22,10 @@ def run_property(prop, tier, seed, root=None, overlay=None, only=None, quiet=Fal
         mod.run(chk)
     except model.AnalysisError as e:
         # rules that already reported violations stand; the part that could not be analysed is reported as well
-        if not chk.findings() or not write:
+        if not chk.findings():
             raise
         partial = str(e)
+    chk.partial = partial
     if only:
         chk.rules = [r for r in chk.rules if r.id == only or r.id.startswith(only)]
     if not chk.rules:
